@@ -726,6 +726,14 @@ def str_method(I, node, s, meth, args, kwargs, st):
                     for st2, cs3 in go_r(cs2, st1):
                         yield st2, SStr(chars=cs3)
             return
+        if not args:
+            # whitespace strip of a string of unknown length: an uninterpreted (deterministic) function
+            U = z3.Function('str.' + meth + '_ws', z3.StringSort(), z3.StringSort())
+            r = U(s.expr)
+            st.assume(z3.Length(r) <= z3.Length(s.expr))
+            I.trusted.add('str.%s() on strings of unknown length: uninterpreted deterministic function, result not longer than the argument' % meth)
+            yield st, SStr(expr=r)
+            return
         # native: r with s == pre ++ r (lstrip), pre all in set, r empty or first not in set
         RS = z3.ReSort(z3.StringSort())
         setre = z3.Union(*[z3.Re(z3.StringVal(chr(k))) for k in codes]) if len(codes) > 1 else z3.Re(z3.StringVal(chr(codes[0])))
